@@ -16,7 +16,8 @@ pub enum BlobType { Tree, Data }
 pub struct PackId { pub _opaque: u64 }
 #[derive(Clone, Copy)]
 pub struct Timestamp { pub t: i64 }
-pub struct IndexBlob { pub _opaque: u64 }
+// a blob is identified by its TYPE together with its id (the property's blob identity)
+pub struct IndexBlob { pub tpe: BlobType, pub id: BlobId, pub _opaque: u64 }
 // EnumSet<PackStatus>: informational flags only (debug statistics); opaque
 #[derive(Clone, Copy)]
 pub struct StatusSet { pub _opaque: u64 }
@@ -42,29 +43,29 @@ pub struct BlobId { pub _opaque: u64 }
 pub struct UsedIds { pub _opaque: u64 }
 pub open spec fn safe_holder(t: PackToDo) -> bool { t == PackToDo::Keep || t == PackToDo::Recover }
 #[verifier::external_body]
-pub fn vused_ids_remove(u: &mut UsedIds, id: &BlobId, Ghost(holder): Ghost<PackToDo>) -> (r: Option<u8>)
+pub fn vused_ids_remove(u: &mut UsedIds, key: &(BlobType, BlobId), Ghost(holder): Ghost<PackToDo>) -> (r: Option<u8>)
     requires safe_holder(holder),
 { unimplemented!() }
 #[verifier::external_body]
 pub fn vcheck_size(existing_size: Option<u32>, pack_size: u32) -> (r: RusticResult<()>)
     ensures r is Ok ==> existing_size == Some(pack_size),
 { unimplemented!() }
-pub struct VBlobRef { pub id: BlobId }
+pub struct VBlobRef { pub tpe: BlobType, pub id: BlobId }
 pub struct VPackRef { pub to_do: PackToDo, pub size: u32, pub blobs: Vec<VBlobRef> }
 pub struct VPlan2 { pub used_ids: UsedIds }
 
 pub fn vunreachable() requires false, {}
 
 // ---- PrunePlan::check: every used blob was found in some index file (count != 0) ----
-pub struct VCountMap { pub m: Ghost<Map<u64, u8>> }
+pub struct VCountMap { pub m: Ghost<Map<(BlobType, u64), u8>> }
 impl VCountMap {
-    pub closed spec fn view(&self) -> Map<u64, u8> { self.m@ }
-    // iteration over &BTreeMap<BlobId, u8>: its entries
+    pub closed spec fn view(&self) -> Map<(BlobType, u64), u8> { self.m@ }
+    // iteration over &BTreeMap<(BlobType, BlobId), u8>: its entries
     #[verifier::external_body]
-    pub fn ventries(&self) -> (r: Vec<(BlobId, u8)>)
+    pub fn ventries(&self) -> (r: Vec<((BlobType, BlobId), u8)>)
         ensures
-            forall|k: u64| self@.dom().contains(k) ==> exists|i: int| 0 <= i < r@.len() && (#[trigger] r@[i]).0._opaque == k,
-            forall|i: int| 0 <= i < r@.len() ==> self@.dom().contains((#[trigger] r@[i]).0._opaque) && self@[r@[i].0._opaque] == r@[i].1,
+            forall|k: (BlobType, u64)| self@.dom().contains(k) ==> exists|i: int| 0 <= i < r@.len() && ((#[trigger] r@[i]).0.0, r@[i].0.1._opaque) == k,
+            forall|i: int| 0 <= i < r@.len() ==> self@.dom().contains(((#[trigger] r@[i]).0.0, r@[i].0.1._opaque)) && self@[(r@[i].0.0, r@[i].0.1._opaque)] == r@[i].1,
     { unimplemented!() }
 }
 pub struct VPlan3 { pub used_ids: VCountMap }
@@ -104,16 +105,16 @@ impl VRemoved {
         requires may_be_removed(pack.to_do),
     { unimplemented!() }
 }
-pub open spec fn bid(b: IndexBlob) -> u64 { b._opaque }
-pub struct VUsedSet { pub s: Ghost<Set<u64>> }
-// pack.blobs.retain(|blob| used_ids.remove(&blob.id).is_some()): keeps the first occurrence of every blob that is still
+pub open spec fn bid(b: IndexBlob) -> (BlobType, u64) { (b.tpe, b.id._opaque) }
+pub struct VUsedSet { pub s: Ghost<Set<(BlobType, u64)>> }
+// pack.blobs.retain(|blob| used_ids.remove(&(blob.tpe, blob.id)).is_some()): keeps the first occurrence of every blob that is still
 // needed and strikes it from used_ids (ASSUMED contract of Vec::retain with THIS closure literal)
 #[verifier::external_body]
 pub fn vretain_still_used(blobs: &mut Vec<IndexBlob>, used: &mut VUsedSet)
     ensures
         forall|b: IndexBlob| old(blobs)@.contains(b) && old(used).s@.contains(bid(b)) ==> exists|j: int| 0 <= j < final(blobs)@.len() && bid(#[trigger] final(blobs)@[j]) == bid(b),
         forall|j: int| 0 <= j < final(blobs)@.len() ==> old(blobs)@.contains(#[trigger] final(blobs)@[j]) && old(used).s@.contains(bid(final(blobs)@[j])),
-        forall|k: u64| final(used).s@.contains(k) <==> old(used).s@.contains(k) && !(exists|j: int| 0 <= j < old(blobs)@.len() && bid(#[trigger] old(blobs)@[j]) == k),
+        forall|k: (BlobType, u64)| final(used).s@.contains(k) <==> old(used).s@.contains(k) && !(exists|j: int| 0 <= j < old(blobs)@.len() && bid(#[trigger] old(blobs)@[j]) == k),
 { unimplemented!() }
 #[verifier::external_body]
 pub fn vsort_blobs_c02(blobs: &mut Vec<IndexBlob>)
